@@ -28,18 +28,20 @@ Ltac word_facts H :=
   repeat (apply andb_true_iff in Hw; let H2 := fresh "Hw" in destruct Hw as [Hw H2]);
   repeat match goal with Hx : negb _ = true |- _ => apply negb_true_iff in Hx end.
 
-(* every printable ASCII character other than the double quote and the comma is a Word character *)
+(* every printable ASCII character other than the double quote, the comma and the backslash (the
+   characters that make the writer quote an item; space is below 33) is a Word character *)
 Lemma small_cases (P : N -> bool) (n : nat) :
   forallb P (map N.of_nat (seq 0 n)) = true -> forall c, c < N.of_nat n -> P c = true.
 Proof. intros H c Hc. rewrite forallb_forall in H. apply H.
   rewrite <- (N2Nat.id c). apply in_map, in_seq. lia. Qed.
-Lemma printable_is_word c : 33 <= c <= 126 -> c <> 34 -> c <> 44 -> is_word c = true.
+Lemma printable_is_word c : 33 <= c <= 126 -> c <> 34 -> c <> 44 -> c <> 92 -> is_word c = true.
 Proof.
-  intros Hr H1 H2.
-  pose proof (small_cases (fun c => negb ((33 <=? c) && (c <=? 126) && negb (c =? 34) && negb (c =? 44)) || is_word c) 127) as H.
+  intros Hr H1 H2 H3.
+  pose proof (small_cases (fun c => negb ((33 <=? c) && (c <=? 126) && negb (c =? 34) && negb (c =? 44) && negb (c =? 92)) || is_word c) 127) as H.
   specialize (H ltac:(vm_compute; reflexivity) c ltac:(lia)). cbv beta in H.
   replace (33 <=? c) with true in H by lia. replace (c <=? 126) with true in H by lia.
-  replace (c =? 34) with false in H by lia. replace (c =? 44) with false in H by lia. exact H.
+  replace (c =? 34) with false in H by lia. replace (c =? 44) with false in H by lia.
+  replace (c =? 92) with false in H by lia. exact H.
 Qed.
 
 Lemma white_quote : is_white 34 = false. Proof. reflexivity. Qed.
@@ -617,4 +619,20 @@ Example unescape_examples :
   unescape (lit "\03") = lit "03" /\ unescape (lit "\73") = lit "73" /\ unescape (lit "\x12") = [18] /\
   unescape (lit "\xA2") = [162] /\ unescape (lit "\uB4") = [180] /\ unescape (lit "\x1") = lit "x1" /\
   unescape (lit "\q") = lit "q" /\ unescape [92; 92; 116] = [92; 116].
+Proof. vm_compute. repeat split; reflexivity. Qed.
+
+(* instances of the rejection theorems' hypotheses (non-vacuity): after the field [a b] ... *)
+Example rejects_instances :
+  let pre := [[97; 32; 98]] in
+  forallb item_ok pre = true /\
+  (* ... a blank field, then more fields *)
+  (blank [32] = true /\ split_by_commas (join_fields (map quote pre ++ [32] :: [[99]])) = Exn ValueError) /\
+  (* ... a field with one double quote *)
+  (nq [34; 98; 99] = 1%nat /\ split_by_commas (join_fields (map quote pre ++ [[34; 98; 99]])) = Exn ValueError) /\
+  (* ... a quoted field, a blank, then text *)
+  (is_white 120 = false /\
+   split_by_commas (join_fields (map quote pre ++ [quoted_field [99; 44; 100] ++ [32] ++ 120 :: [44; 121]])) = Exn ValueError) /\
+  (* ... a word with a quote in it *)
+  (forallb is_word [99; 100] = true /\
+   split_by_commas (join_fields (map quote pre ++ [[99; 100] ++ 34 :: [101; 34]])) = Exn ValueError).
 Proof. vm_compute. repeat split; reflexivity. Qed.
